@@ -152,6 +152,11 @@ def generate(tier, rng, around=None):
         for b in range(0, 6):
             cases.append(dict(base, callbacks=[['raise', 'cbfault']], events=life.place(n, evs + [(b, ['late', 0])]) + tail,
                               _kind='callback', _tag='cbfault'))
+        # ... and while the process is still CREATED (paused before its first step)
+        for b in range(1, 4):
+            cases.append(dict(base, callbacks=[['raise', 'cbfault']],
+                              events=life.place(n, [(0, ['ctl', ['pause', None]])] + evs + [(b, ['late', 0])]) + tail,
+                              _kind='callback', _tag='cbfault', _scenario=name + '+created'))
         # a failing listener at every notification
         lcounts = {}
         for e in ref['trace']:
